@@ -1,6 +1,6 @@
 /- C03 — a syntactic, decidable sufficient condition for order independence of a pass
 (`OrderIndepSyn`) and the proof that it implies that every serving order of the ready list yields the
-same callbacks (`orderIndepSyn_sound`, used by `C03_backends_agree_syn` in Props). -/
+same callbacks (`orderIndepSyn_sound`, used by `C03_backends_agree_syn_partial` in Props). -/
 import TboxModel.C03.ProofsSync
 namespace Tbox.C03
 
@@ -17,11 +17,13 @@ def skel (v : Ev) : Bool × Bool × Nat × Nat × Bool × List Act :=
 structure Skel (s t : State) : Prop where
   ev : ∀ e, skel (s.evs e) = skel (t.evs e)
   isOpen : s.isOpen = t.isOpen
+  eof : s.eof = t.eof       -- what the harness can still do through the peer end (`blocked`) is not changed by a local action
+  gone : s.gone = t.gone
 
-theorem Skel.refl (s : State) : Skel s s := ⟨fun _ => rfl, rfl⟩
-theorem Skel.symm {s t : State} (h : Skel s t) : Skel t s := ⟨fun e => (h.ev e).symm, h.isOpen.symm⟩
+theorem Skel.refl (s : State) : Skel s s := ⟨fun _ => rfl, rfl, rfl, rfl⟩
+theorem Skel.symm {s t : State} (h : Skel s t) : Skel t s := ⟨fun e => (h.ev e).symm, h.isOpen.symm, h.eof.symm, h.gone.symm⟩
 theorem Skel.trans {a b c : State} (h1 : Skel a b) (h2 : Skel b c) : Skel a c :=
-  ⟨fun e => (h1.ev e).trans (h2.ev e), h1.isOpen.trans h2.isOpen⟩
+  ⟨fun e => (h1.ev e).trans (h2.ev e), h1.isOpen.trans h2.isOpen, h1.eof.trans h2.eof, h1.gone.trans h2.gone⟩
 
 theorem Skel.fields {s t : State} (h : Skel s t) (e : Nat) :
     (s.evs e).alive = (t.evs e).alive ∧ (s.evs e).inited = (t.evs e).inited ∧ (s.evs e).fd = (t.evs e).fd ∧
@@ -86,8 +88,8 @@ theorem enableEv_fr (s : State) (e : Nat) : Frame (s.evs e).fd s (enableEv s e).
   split; · exact Frame.refl _ s
   split; · exact Frame.refl _ s
   split
-  · exact ⟨⟨fun _ => rfl, rfl⟩, fun _ _ _ _ => rfl, fun _ _ => rfl, fun _ _ => rfl⟩
-  · refine ⟨⟨fun x => ?_, rfl⟩, fun f hf x hx => ?_, fun f hf => ?_, fun f hf => ?_⟩
+  · exact ⟨⟨fun _ => rfl, rfl, rfl, rfl⟩, fun _ _ _ _ => rfl, fun _ _ => rfl, fun _ _ => rfl⟩
+  · refine ⟨⟨fun x => ?_, rfl, rfl, rfl⟩, fun f hf x hx => ?_, fun f hf => ?_, fun f hf => ?_⟩
     · by_cases hx : x = e <;> simp [hx, skel]
     · have : x ≠ e := fun hxe => by subst hxe; exact hf hx.2.2.symm
       simp [this]
@@ -100,10 +102,10 @@ theorem disableEv_fr (s : State) (e : Nat) : Frame (s.evs e).fd s (disableEv s e
   split; · exact Frame.refl _ s
   split; · exact Frame.refl _ s
   split
-  · exact ⟨⟨fun _ => rfl, rfl⟩, fun _ _ _ _ => rfl, fun _ _ => rfl, fun _ _ => rfl⟩
+  · exact ⟨⟨fun _ => rfl, rfl, rfl, rfl⟩, fun _ _ _ _ => rfl, fun _ _ => rfl, fun _ _ => rfl⟩
   · split
-    · exact ⟨⟨fun _ => rfl, rfl⟩, fun _ _ _ _ => rfl, fun _ _ => rfl, fun _ _ => rfl⟩
-    · refine ⟨⟨fun x => ?_, rfl⟩, fun f hf x hx => ?_, fun f hf => ?_, fun f hf => ?_⟩
+    · exact ⟨⟨fun _ => rfl, rfl, rfl, rfl⟩, fun _ _ _ _ => rfl, fun _ _ => rfl, fun _ _ => rfl⟩
+    · refine ⟨⟨fun x => ?_, rfl, rfl, rfl⟩, fun f hf x hx => ?_, fun f hf => ?_, fun f hf => ?_⟩
       · by_cases hx : x = e <;> simp [hx, skel]
       · have : x ≠ e := fun hxe => by subst hxe; exact hf hx.2.2.symm
         simp [this]
@@ -114,7 +116,7 @@ theorem setReady_fr (g : Nat) (s : State) (f : Nat) (rd wr : Option Bool) (ob : 
     Frame g s (setReady s f rd wr ob).1 := by
   unfold setReady; split
   · exact Frame.refl g s
-  · exact ⟨⟨fun _ => rfl, rfl⟩, fun _ _ _ _ => rfl, fun _ _ => rfl, fun _ _ => rfl⟩
+  · exact ⟨⟨fun _ => rfl, rfl, rfl, rfl⟩, fun _ _ _ _ => rfl, fun _ _ => rfl, fun _ _ => rfl⟩
 
 /-- a local action of descriptor `g` changes nothing that belongs to another descriptor -/
 theorem act_fr (s : State) (g : Nat) (a : Act) (hl : localAct s g a = true) : Frame g s (act s a).1 := by
@@ -132,6 +134,8 @@ theorem act_fr (s : State) (g : Nat) (a : Act) (hl : localAct s g a = true) : Fr
   | post k => exact Frame.refl g s
   | init e f m o => simp [localAct] at hl
   | destroy e => simp [localAct] at hl
+  | cond f c => simp [localAct] at hl
+  | enableF e => simp [localAct] at hl
   | close f => simp [localAct] at hl
   | kill f => simp [localAct] at hl
 
@@ -165,10 +169,10 @@ theorem enableEv_sim {f : Nat} {s t : State} (h : SimF f s t) {e : Nat} (he : Ho
     cases hr : s.recs f with
     | none =>
       dsimp only
-      exact ⟨⟨h.sk.ev, by first | rfl | exact h.sk.isOpen⟩, h.en, h.rc, h.kn⟩
+      exact ⟨⟨h.sk.ev, by first | rfl | exact h.sk.isOpen, by first | rfl | exact h.sk.eof, by first | rfl | exact h.sk.gone⟩, h.en, h.rc, h.kn⟩
     | some r =>
       dsimp only
-      refine ⟨⟨fun x => ?_, by first | rfl | exact h.sk.isOpen⟩, fun x hx => ?_, ?_, ?_⟩
+      refine ⟨⟨fun x => ?_, by first | rfl | exact h.sk.isOpen, by first | rfl | exact h.sk.eof, by first | rfl | exact h.sk.gone⟩, fun x hx => ?_, ?_, ?_⟩
       · by_cases hx : x = e
         · simp [hx]
         · simpa [hx] using h.sk.ev x
@@ -194,12 +198,12 @@ theorem disableEv_sim {f : Nat} {s t : State} (h : SimF f s t) {e : Nat} (he : H
     cases hr : s.recs f with
     | none =>
       dsimp only
-      exact ⟨⟨h.sk.ev, by first | rfl | exact h.sk.isOpen⟩, h.en, h.rc, h.kn⟩
+      exact ⟨⟨h.sk.ev, by first | rfl | exact h.sk.isOpen, by first | rfl | exact h.sk.eof, by first | rfl | exact h.sk.gone⟩, h.en, h.rc, h.kn⟩
     | some r =>
       dsimp only
       split
-      · exact ⟨⟨h.sk.ev, by first | rfl | exact h.sk.isOpen⟩, h.en, h.rc, h.kn⟩
-      · refine ⟨⟨fun x => ?_, by first | rfl | exact h.sk.isOpen⟩, fun x hx => ?_, ?_, ?_⟩
+      · exact ⟨⟨h.sk.ev, by first | rfl | exact h.sk.isOpen, by first | rfl | exact h.sk.eof, by first | rfl | exact h.sk.gone⟩, h.en, h.rc, h.kn⟩
+      · refine ⟨⟨fun x => ?_, by first | rfl | exact h.sk.isOpen, by first | rfl | exact h.sk.eof, by first | rfl | exact h.sk.gone⟩, fun x hx => ?_, ?_, ?_⟩
         · by_cases hx : x = e
           · simp [hx]
           · simpa [hx] using h.sk.ev x
@@ -213,11 +217,13 @@ theorem disableEv_sim {f : Nat} {s t : State} (h : SimF f s t) {e : Nat} (he : H
 
 theorem setReady_sim {f : Nat} {s t : State} (h : SimF f s t) (g : Nat) (rd wr : Option Bool) (ob : Bool) :
     SimF f (setReady s g rd wr ob).1 (setReady t g rd wr ob).1 := by
+  have hb : blocked t g rd wr ob = blocked s g rd wr ob := by
+    unfold blocked; rw [← h.sk.isOpen, ← h.sk.eof, ← h.sk.gone]
   unfold setReady
-  rw [← h.sk.isOpen]
+  rw [hb]
   split
   · exact h
-  · exact ⟨⟨h.sk.ev, by first | rfl | exact h.sk.isOpen⟩, h.en, h.rc, h.kn⟩
+  · exact ⟨⟨h.sk.ev, h.sk.isOpen, h.sk.eof, h.sk.gone⟩, h.en, h.rc, h.kn⟩
 
 theorem act_sim {f : Nat} {s t : State} (h : SimF f s t) (a : Act) (hl : localAct s f a = true) :
     SimF f (act s a).1 (act t a).1 := by
@@ -234,6 +240,8 @@ theorem act_sim {f : Nat} {s t : State} (h : SimF f s t) (a : Act) (hl : localAc
   | arm k => exact h
   | post k => exact h
   | init e g m o => simp [localAct] at hl
+  | cond g c => simp [localAct] at hl
+  | enableF e => simp [localAct] at hl
   | destroy e => simp [localAct] at hl
   | close g => simp [localAct] at hl
   | kill g => simp [localAct] at hl
@@ -289,6 +297,8 @@ theorem cbKeys_act (s : State) (f : Nat) (a : Act) (hl : localAct s f a = true) 
   | post k => rfl
   | init e g m o => simp [localAct] at hl
   | destroy e => simp [localAct] at hl
+  | cond g c => simp [localAct] at hl
+  | enableF e => simp [localAct] at hl
   | close g => simp [localAct] at hl
   | kill g => simp [localAct] at hl
 
@@ -309,10 +319,10 @@ theorem cbKeys_emit_cb (s : State) (c : Cb) : cbKeys (s.emit (.cb c)) = (c.e, c.
   simp [cbKeys, State.emit]
 
 theorem emit_sim {f : Nat} {s t : State} (h : SimF f s t) (o o' : Out) : SimF f (s.emit o) (t.emit o') :=
-  ⟨⟨h.sk.ev, h.sk.isOpen⟩, h.en, h.rc, h.kn⟩
+  ⟨⟨h.sk.ev, h.sk.isOpen, h.sk.eof, h.sk.gone⟩, h.en, h.rc, h.kn⟩
 
 theorem emit_fr (g : Nat) (s : State) (o : Out) : Frame g s (s.emit o) :=
-  ⟨⟨fun _ => rfl, rfl⟩, fun _ _ _ _ => rfl, fun _ _ => rfl, fun _ _ => rfl⟩
+  ⟨⟨fun _ => rfl, rfl, rfl, rfl⟩, fun _ _ _ _ => rfl, fun _ _ => rfl, fun _ _ => rfl⟩
 
 /-- entering the callback of a subscriber `e` of `f` in two states that look the same to `f` -/
 theorem enterEvent_sim {w w' : Wait} {f m : Nat} {s t : State} (h : SimF f s t) {e : Nat} (he : Holds s f e) :
@@ -563,6 +573,14 @@ theorem cbKeys_destroyEv (s : State) (e : Nat) : cbKeys (destroyEv s e).1 = cbKe
   · exact (cbKeys_of_log (by simp)).trans h1
   · exact (cbKeys_of_log (by simp)).trans h1
 
+theorem cbKeys_condFd (s : State) (f c : Nat) : cbKeys (condFd s f c).1 = cbKeys s := by
+  unfold condFd
+  repeat' split
+  all_goals rfl
+
+theorem cbKeys_enableEvF (s : State) (e : Nat) : cbKeys (enableEvF s e).1 = cbKeys s :=
+  (cbKeys_of_log (s := (enableEv (refuseAdd s (s.evs e).fd) e).1) rfl).trans (cbKeys_enableEv _ e)
+
 theorem cbKeys_act_any (s : State) (a : Act) : cbKeys (act s a).1 = cbKeys s := by
   cases a with
   | init e f m o => exact cbKeys_initEv s e f m o
@@ -576,6 +594,8 @@ theorem cbKeys_act_any (s : State) (a : Act) : cbKeys (act s a).1 = cbKeys s := 
   | oob g => exact cbKeys_setReady s g _ _ _
   | arm k => rfl
   | post k => rfl
+  | cond f c => exact cbKeys_condFd s f c
+  | enableF e => exact cbKeys_enableEvF s e
 
 theorem cbKeys_runScript_any (sc : List Act) : ∀ s : State, cbKeys (runScript s sc) = cbKeys s := by
   induction sc with
